@@ -97,7 +97,7 @@ def harnesses(ctx):
     for mode, tag in (('', ''), ('VX_SEQ', '.seq')):
         defs = ['VX_N=%d' % N] + ([mode] if mode else [])
         what = 'under interference (rely/guarantee)' if not mode else 'sequential functional contract (silent environment)'
-        hs.append(Harness('uf.findNode' + tag, 'harness_findNode', cpp=cpp, c=c, defines=defs, enforce='h_findNode', unwind=N + 2, bounded=bnd,
+        hs.append(Harness('uf.findNode' + tag, 'harness_findNode', cpp=cpp, c=c, defines=defs, enforce='h_findNode', unwind=N + 2, bounded=bnd, backend='kissat',
                           must_have=['postcondition', 'findNode.0 invariant base', 'findNode.0 invariant step', 'G\\.'],
                           clause='findNode %s: returns a node of the same class that was a root at some instant; every own step is a path-halving step keeping INV (no cycles)' % what,
                           funcs=[D + 'findNode', D + 'get']))
@@ -112,6 +112,9 @@ def harnesses(ctx):
                           clause='sameSet %s: the answer is correct at some instant during the call' % what, funcs=[D + 'sameSet']))
     hs.append(Harness('uf.makeNode', 'harness_makeNode', cpp=cpp, c=c, defines=['VX_N=%d' % N, 'VX_SEQ'], enforce='h_makeNode', unwind=max(N + 2, 12), bounded=bnd,
                       must_have=['postcondition'], clause='makeNode: appends a self-rooted rank-0 node in its own class', funcs=[D + 'makeNode']))
+    if ctx.prop == 'C28' and ctx.tier == 'quick':
+        keep = ('uf.pack', 'uf.unionNodes', 'uf.unionNodes.seq', 'uf.sameSet.seq', 'uf.makeNode')
+        hs = [h for h in hs if h.name in keep]
     for lem in ('evolve_reflexive', 'evolve_transitive', 'guarantee_within_rely', 'inv_acyclic'):
         hs.append(Harness('uf.lemma.' + lem, 'lemma_' + lem, c=c, defines=['VX_N=%d' % N], unwind=max(N + 2, 12), bounded=bnd, must_have=['lemma'],
                           clause='rely/guarantee side condition / consequence of INV'))
